@@ -2,72 +2,80 @@
 (***************************************************************************)
 (* C08 at instruction granularity.                                          *)
 (*                                                                          *)
-(* The blocking acquire path is an instruction table `Prog` that            *)
-(* tools/asm2tla.py extracts from the CURRENT kernel/sync/spinlock_amd64.s  *)
-(* on every run (labels resolved to indices); TryToAcquire and Release are  *)
-(* the atomic operations pattern-matched from spinlock.go.  This module is  *)
-(* the interpreter: per task registers AX BX CX and the zero flag, one       *)
+(* `Prog` is one instruction table that tools/asm2tla.py extracts from the  *)
+(* CURRENT sources on every run: the assembly routine archAcquireSpinlock   *)
+(* of kernel/sync/spinlock_amd64.s (labels resolved to indices) followed by *)
+(* the bodies of Spinlock.Acquire, TryToAcquire and Release of spinlock.go, *)
+(* compiled statement by statement (a small dictionary of statements over   *)
+(* sync/atomic operations on l.state).  EntryAcq / EntryTry / EntryRel are  *)
+(* the indices at which the three methods start (0 = not understood by the  *)
+(* extractor, that method is left out of the model).  This module is the    *)
+(* interpreter: per task registers AX BX CX and the zero flag, one          *)
 (* instruction per step, any interleaving of the tasks.                     *)
 (*                                                                          *)
-(* Hardware assumptions (DESIGN section 7): XCHG with a memory operand is    *)
-(* atomic and - like every locked instruction - drains the store buffer;    *)
-(* plain loads/stores are single accesses; with TSO = TRUE every task has a *)
-(* FIFO store buffer for plain stores (x86-TSO), loads snoop the own buffer. *)
-(* A Go function call (CALL) clobbers every register.                       *)
+(* Hardware assumptions (DESIGN section 7): XCHG with a memory operand and  *)
+(* the sync/atomic read-modify-write operations are atomic and drain the    *)
+(* store buffer; loads and plain stores are single accesses; with TSO =     *)
+(* TRUE every task has a FIFO store buffer for plain stores (x86-TSO) that  *)
+(* its own loads snoop.  A Go function call (CALL) clobbers every register. *)
 (*                                                                          *)
 (* Instruction = [op, d, s, v, to] :                                         *)
 (*   ldstate d      d := address of the lock word (argument state+0(FP))     *)
-(*   ldatt d        d := attemptsBeforeYielding                              *)
+(*   ldatt d        d := attemptsBeforeYielding (argument +8(FP))            *)
 (*   ldyield d      d := value of the package variable yieldFn               *)
 (*   movi d v       d := v            movr d s   d := s                      *)
 (*   load d s       d := mem[s]       (plain read,  s must hold the address) *)
 (*   store d s      mem[d] := s       (plain write, d must hold the address) *)
 (*   storei d v     mem[d] := v                                              *)
 (*   xchg d s       atomically swap register d and mem[s]                    *)
-(*   test d         Z := (d = 0)      cmpi d v   Z := (d = v)                *)
+(*   test d         Z := (d = 0)      cmpi d v   Z := (d = v)    setz v      *)
 (*   dec d / inc d  d := d -/+ 1 (mod CMod), Z := (d = 0)                    *)
-(*   jz to / jnz to / jmp to          ret        nop                         *)
+(*   jz to / jnz to / jmp to          nop                                    *)
 (*   call s         call the function s points to (s must be yieldFn # nil)  *)
+(*   gload d        d := l.state      (atomic.LoadUint32 / plain read)       *)
+(*   gstore v       l.state = v       (plain store)                          *)
+(*   gastore v      atomic.StoreUint32(&l.state, v)                          *)
+(*   gswap d v      d := atomic.SwapUint32(&l.state, v)                      *)
+(*   gcas v to      Z := atomic.CompareAndSwapUint32(&l.state, v, to)        *)
+(*   tail v         archAcquireSpinlock(&l.state, v): call of instruction 1  *)
+(*   ret / rett / retf   return / return true / return false                 *)
 (***************************************************************************)
 EXTENDS Integers, Sequences, FiniteSets, TLC
 CONSTANTS Tasks, MaxOps,
-          Prog,            \* the instruction table; <<>> = acquire path not modelled (extraction inconclusive)
-          Attempts,        \* second argument Acquire passes to archAcquireSpinlock
-          Try,             \* [kind |-> "swap", v, cmp |-> "eq"|"ne", c] | [kind |-> "cas", old, new] | [kind |-> "none"]
-          Rel,             \* [kind |-> "atomic"|"plain", v]
+          Prog, EntryAcq, EntryTry, EntryRel,
           YieldSet,        \* is yieldFn non-nil (TRUE in hosted tests, FALSE in the kernel today)
           TSO,             \* model per-task store buffers
-          Bug              \* design mutants of the interpreter (leg M): "none" | ...
+          RelPlain,        \* leg M variant: Release is the plain store  l.state = 0  instead of the extracted body
+          Bug              \* design mutants of the interpreter (leg M): "none" | "XchgNotAtomic" | "BufferNotFifo"
 
 PTR == 100   YIELD == 101   UNDEF == 0 - 1   CMod == 4
-Regs == {"AX", "BX", "CX"}
+NoRegs == [AX |-> UNDEF, BX |-> UNDEF, CX |-> UNDEF, ATT |-> 0, RET |-> 0, Z |-> FALSE]
 
 VARIABLES state,     \* the lock word in memory
           counter,   \* the protected datum in memory
           buf,       \* task -> store buffer: sequence of <<location, value>>, oldest first
           pc,        \* task -> 0 idle | 1..Len(Prog) next instruction | -1 in the critical section
-                     \*         | -2 datum written, Release called | -3 lock word stored, Release returning
-                     \*         | -4 TryToAcquire called | -5 swap done, result pending
-          reg,       \* task -> [AX, BX, CX, Z]
-          tmp,       \* task -> value of the datum read on entry
+          cur,       \* task -> "acq" | "try" | "rel": the method that is executing while pc > 0
+          hold,      \* task -> TRUE from the call of Release until its first store to the lock word
+          reg,       \* task -> [AX, BX, CX, ATT, Z]
+          tmp,       \* task -> value of the datum read on entry (also scratch of design mutant XchgNotAtomic)
           done,      \* completed critical sections
           nops,      \* task -> calls made
-          wild       \* an instruction used a register in a way the interpreter cannot justify
-vars == <<state, counter, buf, pc, reg, tmp, done, nops, wild>>
+          wild       \* an instruction used a register / a return in a way the interpreter cannot justify
+vars == <<state, counter, buf, pc, cur, hold, reg, tmp, done, nops, wild>>
 
 Init == /\ state = 0 /\ counter = 0 /\ buf = [t \in Tasks |-> <<>>]
-        /\ pc = [t \in Tasks |-> 0]
-        /\ reg = [t \in Tasks |-> [AX |-> UNDEF, BX |-> UNDEF, CX |-> UNDEF, Z |-> FALSE]]
+        /\ pc = [t \in Tasks |-> 0] /\ cur = [t \in Tasks |-> "acq"] /\ hold = [t \in Tasks |-> FALSE]
+        /\ reg = [t \in Tasks |-> NoRegs]
         /\ tmp = [t \in Tasks |-> 0] /\ done = 0 /\ nops = [t \in Tasks |-> 0] /\ wild = <<>>
 
 ---------------------------------------------------------------------------
 (* memory *)
 Mem(loc) == IF loc = "state" THEN state ELSE counter
-\* newest buffered value of loc in t's own buffer, else memory
 RECURSIVE Newest(_, _, _)
 Newest(b, loc, i) == IF i = 0 THEN <<>> ELSE IF b[i][1] = loc THEN <<b[i][2]>> ELSE Newest(b, loc, i - 1)
+\* newest value of loc in t's own buffer, else memory
 Read(t, loc) == LET n == Newest(buf[t], loc, Len(buf[t])) IN IF n = <<>> THEN Mem(loc) ELSE n[1]
-\* plain store
 PlainStore(t, loc, v) ==
   IF TSO THEN /\ buf' = [buf EXCEPT ![t] = Append(@, <<loc, v>>)] /\ UNCHANGED <<state, counter>>
   ELSE /\ UNCHANGED buf
@@ -78,119 +86,123 @@ Drain(t) == /\ TSO /\ buf[t] # <<>>
                  /\ buf' = [buf EXCEPT ![t] = SubSeq(@, 1, i - 1) \o SubSeq(@, i + 1, Len(@))]
                  /\ IF buf[t][i][1] = "state" THEN state' = buf[t][i][2] /\ UNCHANGED counter
                     ELSE counter' = buf[t][i][2] /\ UNCHANGED state
-            /\ UNCHANGED <<pc, reg, tmp, done, nops, wild>>
+            /\ UNCHANGED <<pc, cur, hold, reg, tmp, done, nops, wild>>
 
 ---------------------------------------------------------------------------
 (* calls *)
-CallAcquire(t) == /\ Prog # <<>> /\ pc[t] = 0 /\ nops[t] < MaxOps
-                  /\ pc' = [pc EXCEPT ![t] = 1] /\ nops' = [nops EXCEPT ![t] = @ + 1]
-                  /\ reg' = [reg EXCEPT ![t] = [AX |-> UNDEF, BX |-> UNDEF, CX |-> UNDEF, Z |-> FALSE]]
-                  /\ UNCHANGED <<state, counter, buf, tmp, done, wild>>
+Enter(t, entry, what) == /\ pc' = [pc EXCEPT ![t] = entry] /\ cur' = [cur EXCEPT ![t] = what]
+                         /\ reg' = [reg EXCEPT ![t] = NoRegs]
+CallAcquire(t) == /\ EntryAcq > 0 /\ pc[t] = 0 /\ nops[t] < MaxOps
+                  /\ Enter(t, EntryAcq, "acq") /\ nops' = [nops EXCEPT ![t] = @ + 1]
+                  /\ UNCHANGED <<state, counter, buf, hold, tmp, done, wild>>
+CallTry(t) == /\ EntryTry > 0 /\ pc[t] = 0 /\ nops[t] < MaxOps
+              /\ Enter(t, EntryTry, "try") /\ nops' = [nops EXCEPT ![t] = @ + 1]
+              /\ UNCHANGED <<state, counter, buf, hold, tmp, done, wild>>
+\* the holder writes the datum (a plain store) and calls Release
+RelEntry == IF RelPlain THEN Len(Prog) + 1 ELSE EntryRel
+CallRelease(t) == /\ pc[t] = 0 - 1 /\ RelEntry > 0
+                  /\ PlainStore(t, "counter", tmp[t] + 1)
+                  /\ Enter(t, RelEntry, "rel") /\ hold' = [hold EXCEPT ![t] = TRUE]
+                  /\ UNCHANGED <<tmp, done, nops, wild>>
+\* leg M variant RelPlain: Release == l.state = 0 ; return
+PlainRel(t) == /\ RelPlain /\ cur[t] = "rel" /\ pc[t] \in {Len(Prog) + 1, Len(Prog) + 2}
+               /\ IF pc[t] = Len(Prog) + 1
+                  THEN /\ PlainStore(t, "state", 0) /\ pc' = [pc EXCEPT ![t] = @ + 1]
+                       /\ hold' = [hold EXCEPT ![t] = FALSE] /\ UNCHANGED done
+                  ELSE /\ pc' = [pc EXCEPT ![t] = 0] /\ done' = done + 1 /\ UNCHANGED <<state, counter, buf, hold>>
+               /\ UNCHANGED <<cur, reg, tmp, nops, wild>>
 
 Goto(t, n) == pc' = [pc EXCEPT ![t] = n]
 SetReg(t, r, v) == reg' = [reg EXCEPT ![t][r] = v]
 Bad(t, why) == wild' = IF wild = <<>> THEN <<t, pc[t], why>> ELSE wild
 Good == UNCHANGED wild
+Same == UNCHANGED <<state, counter, buf>>
+\* a store to the lock word inside Release gives the lock up
+Gives(t) == hold' = [hold EXCEPT ![t] = IF cur[t] = "rel" THEN FALSE ELSE @]
+Keeps == UNCHANGED hold
+Small(v) == v \in 0..CMod
 
 Step(t) ==
   /\ pc[t] \in 1..Len(Prog)
   /\ LET i == Prog[pc[t]]  n == pc[t] + 1  r == reg[t] IN
-     CASE i.op = "nop"     -> Goto(t, n) /\ Good /\ UNCHANGED <<state, counter, buf, reg>>
-       [] i.op = "ldstate" -> Goto(t, n) /\ SetReg(t, i.d, PTR) /\ Good /\ UNCHANGED <<state, counter, buf>>
-       [] i.op = "ldatt"   -> Goto(t, n) /\ SetReg(t, i.d, Attempts % CMod) /\ Good /\ UNCHANGED <<state, counter, buf>>
-       [] i.op = "ldyield" -> Goto(t, n) /\ SetReg(t, i.d, IF YieldSet THEN YIELD ELSE 0) /\ Good /\ UNCHANGED <<state, counter, buf>>
-       [] i.op = "movi"    -> Goto(t, n) /\ SetReg(t, i.d, i.v) /\ Good /\ UNCHANGED <<state, counter, buf>>
-       [] i.op = "movr"    -> Goto(t, n) /\ SetReg(t, i.d, r[i.s]) /\ Good /\ UNCHANGED <<state, counter, buf>>
-       [] i.op = "load"    -> /\ Goto(t, n) /\ UNCHANGED <<state, counter, buf>>
+     CASE i.op = "nop"     -> Goto(t, n) /\ Good /\ Same /\ Keeps /\ UNCHANGED reg
+       [] i.op = "ldstate" -> Goto(t, n) /\ SetReg(t, i.d, PTR) /\ Good /\ Same /\ Keeps
+       [] i.op = "ldatt"   -> Goto(t, n) /\ SetReg(t, i.d, r.ATT % CMod) /\ Good /\ Same /\ Keeps
+       [] i.op = "ldyield" -> Goto(t, n) /\ SetReg(t, i.d, IF YieldSet THEN YIELD ELSE 0) /\ Good /\ Same /\ Keeps
+       [] i.op = "movi"    -> Goto(t, n) /\ SetReg(t, i.d, i.v) /\ Good /\ Same /\ Keeps
+       [] i.op = "movr"    -> Goto(t, n) /\ SetReg(t, i.d, r[i.s]) /\ Good /\ Same /\ Keeps
+       [] i.op = "setz"    -> Goto(t, n) /\ reg' = [reg EXCEPT ![t].Z = (i.v = 1)] /\ Good /\ Same /\ Keeps
+       [] i.op = "load"    -> /\ Goto(t, n) /\ Same /\ Keeps
                               /\ IF r[i.s] = PTR THEN SetReg(t, i.d, Read(t, "state")) /\ Good
                                  ELSE SetReg(t, i.d, UNDEF) /\ Bad(t, "load through a register that does not hold the lock address")
+       [] i.op = "gload"   -> Goto(t, n) /\ SetReg(t, i.d, Read(t, "state")) /\ Good /\ Same /\ Keeps
        [] i.op \in {"store", "storei"} ->
                               /\ Goto(t, n) /\ UNCHANGED reg
-                              /\ IF r[i.d] = PTR /\ (i.op = "storei" \/ r[i.s] \in 0..CMod)
-                                 THEN PlainStore(t, "state", IF i.op = "storei" THEN i.v ELSE r[i.s]) /\ Good
-                                 ELSE UNCHANGED <<state, counter, buf>> /\ Bad(t, "store through a register that does not hold the lock address")
-       [] i.op = "xchg"    -> IF r[i.s] = PTR /\ r[i.d] \in 0..CMod
+                              /\ IF r[i.d] = PTR /\ (i.op = "storei" \/ Small(r[i.s]))
+                                 THEN PlainStore(t, "state", IF i.op = "storei" THEN i.v ELSE r[i.s]) /\ Good /\ Gives(t)
+                                 ELSE Same /\ Keeps /\ Bad(t, "store through a register that does not hold the lock address")
+       [] i.op = "gstore"  -> Goto(t, n) /\ UNCHANGED reg /\ PlainStore(t, "state", i.v) /\ Good /\ Gives(t)
+       [] i.op = "gastore" -> /\ Drained(t) /\ Goto(t, n) /\ UNCHANGED <<reg, counter, buf>> /\ state' = i.v /\ Good /\ Gives(t)
+       [] i.op = "gswap"   -> /\ Drained(t) /\ Goto(t, n) /\ SetReg(t, i.d, state) /\ state' = i.v
+                              /\ UNCHANGED <<counter, buf>> /\ Good /\ Gives(t)
+       [] i.op = "gcas"    -> /\ Drained(t) /\ Goto(t, n) /\ reg' = [reg EXCEPT ![t].Z = (state = i.v)]
+                              /\ state' = IF state = i.v THEN i.to ELSE state
+                              /\ UNCHANGED <<counter, buf>> /\ Good /\ (IF state = i.v THEN Gives(t) ELSE Keeps)
+       [] i.op = "xchg"    -> IF r[i.s] = PTR /\ Small(r[i.d])
                               THEN IF Bug = "XchgNotAtomic"            \* design mutant: read now, write at the next step
                                    THEN /\ pc' = [pc EXCEPT ![t] = 0 - (1000 + pc[t])] /\ SetReg(t, i.d, Read(t, "state"))
-                                        /\ Good /\ UNCHANGED <<state, counter, buf>>
+                                        /\ Good /\ Same /\ Keeps
                                    ELSE /\ Drained(t) /\ Goto(t, n) /\ SetReg(t, i.d, state) /\ state' = r[i.d]
-                                        /\ Good /\ UNCHANGED <<counter, buf>>
-                              ELSE Goto(t, n) /\ SetReg(t, i.d, UNDEF) /\ UNCHANGED <<state, counter, buf>>
+                                        /\ Good /\ UNCHANGED <<counter, buf>> /\ Gives(t)
+                              ELSE Goto(t, n) /\ SetReg(t, i.d, UNDEF) /\ Same /\ Keeps
                                    /\ Bad(t, "xchg operands are not (value register, lock address)")
-       [] i.op = "test"    -> /\ Goto(t, n) /\ UNCHANGED <<state, counter, buf>>
+       [] i.op = "test"    -> /\ Goto(t, n) /\ Same /\ Keeps
                               /\ reg' = [reg EXCEPT ![t].Z = (r[i.d] = 0)]
                               /\ IF r[i.d] = UNDEF THEN Bad(t, "test of an undefined register") ELSE Good
-       [] i.op = "cmpi"    -> /\ Goto(t, n) /\ UNCHANGED <<state, counter, buf>>
+       [] i.op = "cmpi"    -> /\ Goto(t, n) /\ Same /\ Keeps
                               /\ reg' = [reg EXCEPT ![t].Z = (r[i.d] = i.v)]
                               /\ IF r[i.d] = UNDEF THEN Bad(t, "compare of an undefined register") ELSE Good
        [] i.op \in {"dec", "inc"} ->     \* a register clobbered by CALL holds an arbitrary count
                               \E v0 \in (IF r[i.d] = UNDEF THEN 0..(CMod - 1) ELSE {r[i.d]}) :
                               LET v == (v0 + (IF i.op = "dec" THEN CMod - 1 ELSE 1)) % CMod IN
-                              /\ Goto(t, n) /\ UNCHANGED <<state, counter, buf>>
+                              /\ Goto(t, n) /\ Same /\ Keeps
                               /\ reg' = [reg EXCEPT ![t][i.d] = v, ![t].Z = (v = 0)]
                               /\ IF v0 \in 0..(CMod - 1) THEN Good ELSE Bad(t, "arithmetic on a register that holds an address")
-       [] i.op = "jnz"     -> Goto(t, IF ~r.Z THEN i.to ELSE n) /\ Good /\ UNCHANGED <<state, counter, buf, reg>>
-       [] i.op = "jz"      -> Goto(t, IF r.Z THEN i.to ELSE n) /\ Good /\ UNCHANGED <<state, counter, buf, reg>>
-       [] i.op = "jmp"     -> Goto(t, i.to) /\ Good /\ UNCHANGED <<state, counter, buf, reg>>
-       [] i.op = "call"    -> /\ Goto(t, n) /\ UNCHANGED <<state, counter, buf>>
-                              /\ reg' = [reg EXCEPT ![t] = [AX |-> UNDEF, BX |-> UNDEF, CX |-> UNDEF, Z |-> FALSE]]
+       [] i.op = "jnz"     -> Goto(t, IF ~r.Z THEN i.to ELSE n) /\ Good /\ Same /\ Keeps /\ UNCHANGED reg
+       [] i.op = "jz"      -> Goto(t, IF r.Z THEN i.to ELSE n) /\ Good /\ Same /\ Keeps /\ UNCHANGED reg
+       [] i.op = "jmp"     -> Goto(t, i.to) /\ Good /\ Same /\ Keeps /\ UNCHANGED reg
+       [] i.op = "call"    -> /\ Goto(t, n) /\ Same /\ Keeps
+                              /\ reg' = [reg EXCEPT ![t] = [NoRegs EXCEPT !.ATT = r.ATT, !.RET = r.RET]]
                               /\ IF r[i.s] = YIELD THEN Good ELSE Bad(t, "call through a register that does not hold a non-nil yieldFn")
-       [] i.op = "ret"     -> \* Acquire returns: the caller is inside the lock and reads the datum
-                              /\ pc' = [pc EXCEPT ![t] = 0 - 1] /\ Good /\ UNCHANGED <<state, counter, buf, reg>>
+       [] i.op = "tail"    -> /\ Goto(t, 1) /\ reg' = [reg EXCEPT ![t] = [NoRegs EXCEPT !.ATT = i.v, !.RET = n]] /\ Same /\ Keeps
+                              /\ IF cur[t] = "acq" /\ r.RET = 0 THEN Good ELSE Bad(t, "archAcquireSpinlock called outside Acquire")
+       [] i.op = "ret" /\ r.RET # 0 ->      \* the assembly routine returns into Acquire
+                              Goto(t, r.RET) /\ reg' = [reg EXCEPT ![t].RET = 0] /\ Good /\ Same /\ Keeps
+       [] i.op \in {"ret", "rett", "retf"} ->
+                              /\ Same /\ UNCHANGED reg
+                              /\ hold' = [hold EXCEPT ![t] = FALSE]
+                              /\ IF (cur[t] = "try") = (i.op # "ret") THEN Good ELSE Bad(t, "return kind does not fit the method")
+                              /\ pc' = [pc EXCEPT ![t] = IF cur[t] = "rel" \/ i.op = "retf" THEN 0 ELSE 0 - 1]
   /\ LET i == Prog[pc[t]] IN
-       IF i.op = "ret" THEN tmp' = [tmp EXCEPT ![t] = Read(t, "counter")]
-       ELSE IF i.op = "xchg" /\ Bug = "XchgNotAtomic" THEN tmp' = [tmp EXCEPT ![t] = reg[t][i.d]]
-       ELSE UNCHANGED tmp
-  /\ UNCHANGED <<done, nops>>
+       /\ IF i.op \in {"ret", "rett"} /\ cur[t] # "rel" /\ reg[t].RET = 0 THEN tmp' = [tmp EXCEPT ![t] = Read(t, "counter")]
+          ELSE IF i.op = "xchg" /\ Bug = "XchgNotAtomic" THEN tmp' = [tmp EXCEPT ![t] = reg[t][i.d]]
+          ELSE UNCHANGED tmp
+       /\ done' = IF i.op = "ret" /\ cur[t] = "rel" /\ reg[t].RET = 0 THEN done + 1 ELSE done
+  /\ UNCHANGED <<cur, nops>>
 
 \* second half of the non-atomic exchange of design mutant XchgNotAtomic
 XchgWrite(t) == /\ pc[t] < 0 - 1000
                 /\ state' = tmp[t] /\ pc' = [pc EXCEPT ![t] = (0 - pc[t]) - 1000 + 1]
-                /\ UNCHANGED <<counter, buf, reg, tmp, done, nops, wild>>
+                /\ UNCHANGED <<counter, buf, cur, hold, reg, tmp, done, nops, wild>>
 
-\* falling off the end of the table
-RunOff(t) == /\ pc[t] = Len(Prog) + 1 /\ Prog # <<>>
-             /\ Bad(t, "control flow runs past the last instruction")
-             /\ pc' = [pc EXCEPT ![t] = 0] /\ UNCHANGED <<state, counter, buf, reg, tmp, done, nops>>
-
-CallTry(t) == /\ Try.kind # "none" /\ pc[t] = 0 /\ nops[t] < MaxOps
-              /\ pc' = [pc EXCEPT ![t] = 0 - 4] /\ nops' = [nops EXCEPT ![t] = @ + 1]
-              /\ UNCHANGED <<state, counter, buf, reg, tmp, done, wild>>
-\* the atomic operation of TryToAcquire; BX := 1 if the call is going to report TRUE
-TrySwap(t) == /\ pc[t] = 0 - 4 /\ Drained(t)
-              /\ LET ok == IF Try.kind = "swap"
-                           THEN IF Try.cmp = "eq" THEN state = Try.c ELSE state # Try.c
-                           ELSE state = Try.old
-                     nv == IF Try.kind = "swap" THEN Try.v ELSE IF state = Try.old THEN Try.new ELSE state
-                 IN /\ state' = nv /\ SetReg(t, "BX", IF ok THEN 1 ELSE 0)
-              /\ pc' = [pc EXCEPT ![t] = 0 - 5]
-              /\ UNCHANGED <<counter, buf, tmp, done, nops, wild>>
-TryRet(t) == /\ pc[t] = 0 - 5
-             /\ IF reg[t].BX = 1 THEN pc' = [pc EXCEPT ![t] = 0 - 1] /\ tmp' = [tmp EXCEPT ![t] = Read(t, "counter")]
-                ELSE pc' = [pc EXCEPT ![t] = 0] /\ UNCHANGED tmp
-             /\ UNCHANGED <<state, counter, buf, reg, done, nops, wild>>
-
-\* the holder writes the datum (a plain store) and calls Release
-RelCall(t) == /\ pc[t] = 0 - 1
-              /\ PlainStore(t, "counter", tmp[t] + 1)
-              /\ pc' = [pc EXCEPT ![t] = 0 - 2]
-              /\ UNCHANGED <<reg, tmp, done, nops, wild>>
-RelStore(t) == /\ pc[t] = 0 - 2
-               /\ IF Rel.kind = "atomic" THEN Drained(t) /\ state' = Rel.v /\ UNCHANGED <<counter, buf>>
-                  ELSE PlainStore(t, "state", Rel.v)
-               /\ pc' = [pc EXCEPT ![t] = 0 - 3]
-               /\ UNCHANGED <<reg, tmp, done, nops, wild>>
-RelRet(t) == /\ pc[t] = 0 - 3
-             /\ pc' = [pc EXCEPT ![t] = 0] /\ done' = done + 1
-             /\ UNCHANGED <<state, counter, buf, reg, tmp, nops, wild>>
-
-Proceed(t) == Step(t) \/ XchgWrite(t) \/ RunOff(t) \/ TrySwap(t) \/ TryRet(t) \/ RelCall(t) \/ RelStore(t) \/ RelRet(t) \/ Drain(t)
+Proceed(t) == Step(t) \/ XchgWrite(t) \/ CallRelease(t) \/ PlainRel(t) \/ Drain(t)
 Next == \E t \in Tasks : CallAcquire(t) \/ CallTry(t) \/ Proceed(t)
 Spec == Init /\ [][Next]_vars /\ \A t \in Tasks : WF_vars(Proceed(t))
 
 ---------------------------------------------------------------------------
 (* The property C08, on the extracted code *)
-Holding == {t \in Tasks : pc[t] \in {0 - 1, 0 - 2}}
+InRelease(t) == cur[t] = "rel" /\ pc[t] # 0 /\ pc[t] # 0 - 1
+Holding == {t \in Tasks : pc[t] = 0 - 1 \/ (InRelease(t) /\ hold[t])}
 MutualExclusion == Cardinality(Holding) <= 1
 \* while somebody holds the lock the lock word (as every other task will see it) says so
 HeldMeansLocked == Holding # {} => state # 0
@@ -198,11 +210,11 @@ HeldMeansLocked == Holding # {} => state # 0
 \* Release really frees the lock, a try-acquire that reports FALSE has not taken it
 FreeWhenIdle == (\A t \in Tasks : pc[t] = 0 /\ buf[t] = <<>>) => state = 0
 \* no update of the protected datum is lost: the work of one holder is visible to the next
-Visibility == (\A t \in Tasks : buf[t] = <<>>) => counter = done + Cardinality({t \in Tasks : pc[t] \in {0 - 2, 0 - 3}})
-EntrySeesAll == \A t \in Tasks : pc[t] = 0 - 1 => tmp[t] = done + Cardinality({u \in Tasks : pc[u] \in {0 - 2, 0 - 3}})
-\* every register use of the routine is justified (address register holds the lock address, ...)
+Visibility == (\A t \in Tasks : buf[t] = <<>>) => counter = done + Cardinality({t \in Tasks : InRelease(t)})
+EntrySeesAll == \A t \in Tasks : pc[t] = 0 - 1 => tmp[t] = done + Cardinality({u \in Tasks : InRelease(u)})
+\* every register use and every return of the extracted code is justified
 NoWildAccess == wild = <<>>
 \* after a release the lock can be taken again: a blocking acquire returns once the competitors stop
-EventuallyAcquired == \A t \in Tasks : (pc[t] > 0) ~> (pc[t] = 0 - 1)
+EventuallyAcquired == \A t \in Tasks : (pc[t] > 0 /\ cur[t] = "acq") ~> (pc[t] = 0 - 1)
 Symm == Permutations(Tasks)
 ====
